@@ -1136,7 +1136,7 @@ fn oracle(line: &str, input: &str, res: &str, out: &mut Out, tys: &[Ty]) {
         "dectrunc" | "cdectrunc" | "recdectrunc" => {
             if res.contains('P') {
                 out.oracle_fail("decoders-never-panic", input, &format!("a decoder panicked on a truncated encoding (cuts: {res})"));
-            } else if res.contains('a') {
+            } else if res.contains('a') || res.contains('b') {
                 out.oracle_fail("truncated-message-rejected", input, &format!("a strict prefix of an encoding is accepted as a value (cuts: {res})"));
             }
         }
